@@ -532,7 +532,9 @@ where
                     PoeticNumberLiteralIteratorItem::SuffixedWord(s, self.greedily_match_suffixes())
                 })
                 .unwrap_or_else(|| PoeticNumberLiteralIteratorItem::Word(s)),
-            PoeticNumberLiteralElem::WordSuffix(_) => unreachable!(),
+            // a suffix with no word in front of it (e.g. right after a comment or a period)
+            // counts as a word of its own
+            PoeticNumberLiteralElem::WordSuffix(s) => PoeticNumberLiteralIteratorItem::Word(s),
         })
     }
 }
